@@ -18,10 +18,10 @@ import signal
 from . import common
 from .common import Check, run_tlc, SPECS
 
-ALL_LEAVES = ["U8", "S8", "U16", "S16", "U32", "S32", "U64", "S64", "F32", "F64", "UUID", "Vec3", "Null",
+ALL_LEAVES = ["U8", "S8", "U16", "S16", "U32", "S32", "U64", "S64", "F32", "F64", "UUID", "Vec3", "Null", "LLSD", "BT4", "BT2r", "CS3",
               "BA8", "BAS8", "BA16", "BA32", "BF2", "BG", "BT", "BTs", "BTn", "STR8", "STR16n", "SF3", "SF8", "CS", "CSn",
               "BIT8", "BIT16n"]
-ALL_CONS = ["CollP", "CollP16", "CollF", "CollG", "OptP", "IfP", "TBP", "TBPe", "TBF", "TBG", "TBGe", "TBT", "TBTe",
+ALL_CONS = ["CollP", "CollP16", "CollF", "CollG", "OptP", "IfP", "TBP", "TBPe", "TBF", "TBG", "TBGe", "TBT", "TBTe", "TBT2",
             "LenSw", "LenSwD", "EnumSw", "FlagSw", "TupA", "TupB", "Tup2", "TmplA", "TmplFlag", "TmplSkip",
             "TmplCtx", "TmplCtxUp", "Adapt"]
 # extra top-level constructors: a 32-bit count prefix, and ill-formed programs (context lookups that cannot resolve,
@@ -31,8 +31,9 @@ MISUSE_CONS = ["CollP32", "MisOpt", "MisTup", "MisSel", "MisSel2", "MisName", "M
 # a context-dependent element under every container kind, below a template with a same-named decoy field one level up
 CTX_CONS = ["CtxCollP", "CtxCollF", "CtxCollG", "CtxTup", "CtxTmpl", "CtxRootG", "CtxRootTB", "CtxOptP", "CtxIfP", "CtxTBP",
             "CtxTBG", "CtxTBT", "CtxEnum", "CtxFlag", "CtxAdapt", "CtxOptF"]
-INVS = ["RoundTrip", "Compose", "SizeSound", "EndianAgnostic", "DecTotal", "DecProbe", "EncTotal"]
+INVS = ["RoundTrip", "Compose", "AltCompose", "SizeSound", "EndianAgnostic", "DecTotal", "DecProbe", "EncTotal"]
 TAILS = [b"", b"\x00", b"\xff\x01", b"\x00\x00\x07"]
+ALT_TAILS = [b"", bytes([10, 0, 32, 9, 13, 59]), bytes([59, 13, 9, 32, 0, 10]), bytes([7, 32, 10])]
 KEY_ORDERS = [0, "rev", 1, 2, 3, 4, 5]   # 0 = spec order; all 6 permutations for <= 3 keys, reverse for any size
 JVM = ("-XX:ParallelGCThreads=2", "-XX:CICompilerCount=2")   # many small JVMs side by side: keep each one narrow
 
@@ -395,6 +396,29 @@ def replay_table(rec):
                     elif rd["pos"] != len(exp_b) or rd["left"] != len(rd["tail"]):
                         viols.append(("reader did not consume exactly the bytes written", {"kind": "read-position", "mode": mode, "tail": len(rd["tail"]), **feat},
                                       {**ctxinfo, "impl": rd}))
+        # alternative wire forms: the same values ended by another legal terminator (written by the rotated spec)
+        for alt in rec.get("alts", []):
+            for endian, bk in ((">", "b"), ("<", "lb")):
+                data = bytes(alt[bk])
+                for pod in (False, True):
+                    for tail in (ALT_TAILS if rec["sd"] else ALT_TAILS[:1]):
+                        r = _se().BufferReader(endian, data + tail, pod=pod)
+                        st, val = impl_call(r.read, spec)
+                        n_eval += 1
+                        got = {"st": st}
+                        if st == "ok":
+                            pos, left = r.tell(), len(r)
+                            cst, cval = _canon_call(reflect, val, vt, pod)
+                            got.update(v=cval, pos=pos, left=left)
+                        else:
+                            got["exc"] = val
+                        if st != "ok" or got["v"] != alt["v"] or got["pos"] != len(data) or got["left"] != len(tail):
+                            viols.append(("a value ended by another legal terminator is not read back exactly (reader must stop at the "
+                                          "earliest terminator)",
+                                          {"kind": "alt-terminator-read", "mode": "pod" if pod else "rich", "top": base["k"],
+                                           "flavour": flavour, "kinds": sorted(_kinds(base))},
+                                          {"tree": vt, "value": alt["v"], "endian": endian, "wire": list(data), "tail": list(tail),
+                                           "terminators_rotated_by": alt["rot"], "impl": got}))
     return n_eval, nontrivial, viols[:20]
 
 
@@ -466,7 +490,7 @@ def _it(w, s):
 
 def t_sd(t):
     k = t["k"]
-    if k in ("int", "float", "uuid", "coord", "null", "bytearray", "bytesfixed", "str", "strfixed", "bitfield"):
+    if k in ("int", "float", "uuid", "coord", "null", "llsd", "bytearray", "bytesfixed", "str", "strfixed", "bitfield"):
         return True
     if k in ("bytesgreedy", "ifpresent", "lenswitch"):
         return False
@@ -538,7 +562,7 @@ class Gen:
         r = self.rng
         opts = ["int", "int", "int", "bytesfixed", "uuid"]
         if not avoid:
-            opts += ["float", "coord", "bytearray", "str", "strfixed", "bitfield", "bytesterm", "cstr", "int"]
+            opts += ["float", "coord", "bytearray", "str", "strfixed", "bitfield", "bytesterm", "cstr", "int", "llsd"]
             if not nonempty and not nonnull:
                 opts.append("null")
         else:
@@ -558,6 +582,8 @@ class Gen:
             return {"k": "coord", **r.choice([{"n": 3, "w": 4}, {"n": 4, "w": 4}, {"n": 3, "w": 8}])}
         if k == "null":
             return {"k": "null"}
+        if k == "llsd":
+            return {"k": "llsd"}
         if k == "bytearray":
             return {"k": "bytearray", "p": _it(*r.choice(INT_TYPES))}
         if k == "bytesfixed":
@@ -810,6 +836,9 @@ class Gen:
             return {"l": [self.value({"k": "float", "w": t["w"]}) for _ in range(t["n"])]}
         if k == "null":
             return NONE
+        if k == "llsd":
+            from .reflect import LLSD_DOCS
+            return {"x": list(r.choice(LLSD_DOCS)[0])}
         if k == "bytearray":
             return {"b": self._bytes(self._plen(t["p"]), avoid)}
         if k == "bytesfixed":
